@@ -12,6 +12,7 @@ import (
 	"github.com/ozontech/file.d/logger"
 	"github.com/ozontech/file.d/metric"
 	"github.com/ozontech/file.d/pipeline"
+	"github.com/ozontech/file.d/verifhook"
 	"github.com/ozontech/file.d/xtime"
 	"github.com/rjeczalik/notify"
 	"go.uber.org/atomic"
@@ -302,6 +303,7 @@ func (jp *jobProvider) commit(event *pipeline.Event) {
 	}
 
 	job.mu.Unlock()
+	verifhook.Point("file.commit.afterStore")
 
 	jp.offsetsCommitted.Inc()
 	if jp.config.PersistenceMode_ == persistenceModeSync {
